@@ -33,9 +33,31 @@ func validOmission() M {
 	return M{"ratio": 0.0, "randomSeed": 1}
 }
 
+// wrongName returns a name no registry documents: a fixed unknown one or a near miss of a documented one
+// (letter case changed, a blank appended, the last letter dropped).
+func wrongName(g G, documented ...string) string {
+	d := documented[g.Int(0, len(documented)-1)]
+	if d == "" {
+		return "noSuchName"
+	}
+	switch g.Int(0, 5) {
+	case 0:
+		return strings.ToUpper(d[:1]) + d[1:]
+	case 1:
+		return strings.ToUpper(d)
+	case 2:
+		return strings.ToLower(d) + "_" // lower-casing alone may leave an all-lower-case name unchanged
+	case 3:
+		return d + " "
+	case 4:
+		return d[:len(d)-1]
+	}
+	return "noSuchName"
+}
+
 var mutOps = []mutOp{
 	{"unknownMethod", func(g G, req M, v *ReqView) bool {
-		req["preferenceFunction"] = g.Pick("noSuchMethod", "WeightedSum", "electre", "owa ")
+		req["preferenceFunction"] = g.Pick("noSuchMethod", "WeightedSum", "electre", "owa ", wrongName(g, allMethods...))
 		return true
 	}},
 	{"emptyMethod", func(g G, req M, v *ReqView) bool {
@@ -43,7 +65,7 @@ var mutOps = []mutOp{
 		return true
 	}},
 	{"unknownBias", func(g G, req M, v *ReqView) bool {
-		b := M{"name": g.Pick("noSuchBias", "Fatigue", "criteriaomission"), "props": M{}}
+		b := M{"name": g.Pick("noSuchBias", "Fatigue", "criteriaomission", wrongName(g, allBiases...)), "props": M{}}
 		bs := asL(req["biases"])
 		pos := g.Int(0, len(bs))
 		nb := append([]interface{}{}, bs[:pos]...)
@@ -53,7 +75,7 @@ var mutOps = []mutOp{
 	}},
 	{"unknownOrdering", func(g G, req M, v *ReqView) bool {
 		p := validOmission()
-		p["ordering"] = g.Pick("noSuchOrdering", "Weakest", "strongestbyprobability")
+		p["ordering"] = g.Pick("noSuchOrdering", "Weakest", "strongestbyprobability", wrongName(g, orderings...))
 		firstBias(req, M{"name": g.Pick("criteriaOmission", "preferenceReversal"), "props": p})
 		return true
 	}},
@@ -70,7 +92,7 @@ var mutOps = []mutOp{
 		return true
 	}},
 	{"unknownFatigueFunction", func(g G, req M, v *ReqView) bool {
-		firstBias(req, M{"name": "fatigue", "props": M{"function": g.Pick("noSuch", "", "Const"), "params": M{"value": 0.1}}})
+		firstBias(req, M{"name": "fatigue", "props": M{"function": g.Pick("noSuch", "", "Const", wrongName(g, "const", "expFromZero")), "params": M{"value": 0.1}}})
 		return true
 	}},
 	{"zeroBoundingScaling", func(g G, req M, v *ReqView) bool {
@@ -89,7 +111,7 @@ var mutOps = []mutOp{
 		return true
 	}},
 	{"unknownReferenceCriterionType", func(g G, req M, v *ReqView) bool {
-		firstBias(req, M{"name": "criteriaConcealment", "props": M{"referenceCriterionType": "noSuchStrategy", "randomSeed": 3}})
+		firstBias(req, M{"name": "criteriaConcealment", "props": M{"referenceCriterionType": g.Pick("noSuchStrategy", wrongName(g, "importanceRatio", "randomUniform", "randomWeighted")), "randomSeed": 3}})
 		return true
 	}},
 	{"anchoringUnknownAlternative", func(g G, req M, v *ReqView) bool {
@@ -111,7 +133,7 @@ var mutOps = []mutOp{
 			"referencePoints":       M{"function": "ideal"},
 			"applier":               M{"function": "inline", "params": M{}},
 		}
-		p[which].(M)["function"] = "noSuchFunction"
+		p[which].(M)["function"] = g.Pick("noSuchFunction", wrongName(g, str(p[which].(M)["function"])))
 		firstBias(req, M{"name": "anchoring", "props": p})
 		return true
 	}},
@@ -287,9 +309,9 @@ var mutOps = []mutOp{
 			return false
 		}
 		if v.Method == "aspectEliminationHeuristic" {
-			v.MP["function"] = g.Pick("noSuchFunction", "", "idealSubtractiveCoefficient")
+			v.MP["function"] = g.Pick("noSuchFunction", "", "idealSubtractiveCoefficient", wrongName(g, str(v.MP["function"])))
 		} else {
-			v.MP["function"] = g.Pick("noSuchFunction", "", "idealAdditiveCoefficient")
+			v.MP["function"] = g.Pick("noSuchFunction", "", "idealAdditiveCoefficient", wrongName(g, str(v.MP["function"])))
 		}
 		return true
 	}},
@@ -297,7 +319,7 @@ var mutOps = []mutOp{
 		if v.Method != "majorityHeuristic" {
 			return false
 		}
-		v.MP["drawResolution"] = g.Pick("noSuchPolicy", "Allow")
+		v.MP["drawResolution"] = g.Pick("noSuchPolicy", "Allow", wrongName(g, "allow", "current", "newer", "random"))
 		return true
 	}},
 	{"unknownChosenAlternative", func(g G, req M, v *ReqView) bool {
